@@ -509,6 +509,9 @@ func (a *allowerContext) aliasEventAllowed(event PDU) error {
 	if err != nil {
 		return err
 	}
+	if sender == nil {
+		return errorf("userID not found for sender %q in room %q", event.SenderID(), event.RoomID().String())
+	}
 
 	if event.RoomID().String() != a.create.roomID {
 		return errorf(
